@@ -158,6 +158,20 @@ func classifyMapRange(f *FuncInfo, rs *ast.RangeStmt) MapRange {
 						continue
 					}
 					if call, ok := ast.Unparen(rhs).(*ast.CallExpr); ok {
+						// x = x.Add(x, v) on math/big values: commutative accumulation
+						if fn, ok := ObjOfExpr(info, call.Fun).(*types.Func); ok && fn.Pkg() != nil && fn.Pkg().Path() == "math/big" && len(call.Args) == 2 {
+							switch fn.Name() {
+							case "Add", "Mul", "Or", "And", "Xor":
+								if sel, ok := ast.Unparen(call.Fun).(*ast.SelectorExpr); ok {
+									rv, _ := rootVar(sel.X)
+									a0, _ := rootVar(call.Args[0])
+									a1, _ := rootVar(call.Args[1])
+									if rv == v && (a0 == v || a1 == v) && !through {
+										continue
+									}
+								}
+							}
+						}
 						if b, ok := ObjOfExpr(info, call.Fun).(*types.Builtin); ok && b.Name() == "append" && len(call.Args) > 0 {
 							if av, _ := rootVar(call.Args[0]); av == v && !through {
 								appended = append(appended, v)
